@@ -293,13 +293,21 @@ pub fn sweep_scalars() -> Outcome {
     cfg.options = pick(&["-c x=9", ""]);
     cfg.application_name = pick(&["app9", ""]);
     cfg.ssl_mode = [None, Some(SslMode::Disable), Some(SslMode::Prefer), Some(SslMode::Require)][choose_free(4)];
-    if choose_free(2) == 1 {
-        cfg.connect_timeout = Some(Duration::from_secs(9));
-    }
+    // durations: whole seconds, below one second, seconds plus a fraction
+    // (thorough: also zero and a very large value)
+    let durs = |whole: u64| -> Vec<Option<Duration>> {
+        let mut v = vec![None, Some(Duration::from_secs(whole)), Some(Duration::from_millis(500)), Some(Duration::new(1, 500_000_000))];
+        if th {
+            v.push(Some(Duration::ZERO));
+            v.push(Some(Duration::from_secs(u32::MAX as u64)));
+        }
+        v
+    };
+    let ct = durs(9);
+    cfg.connect_timeout = ct[choose_free(ct.len())];
     cfg.keepalives = [None, Some(true), Some(false)][choose_free(3)];
-    if choose_free(2) == 1 {
-        cfg.keepalives_idle = Some(Duration::from_secs(99));
-    }
+    let ki = durs(99);
+    cfg.keepalives_idle = ki[choose_free(ki.len())];
     cfg.target_session_attrs = [None, Some(TargetSessionAttrs::Any), Some(TargetSessionAttrs::ReadWrite)][choose_free(3)];
     cfg.channel_binding = [None, Some(ChannelBinding::Disable), Some(ChannelBinding::Prefer), Some(ChannelBinding::Require)][choose_free(4)];
     cfg.load_balance_hosts = [None, Some(LoadBalanceHosts::Disable), Some(LoadBalanceHosts::Random)][choose_free(3)];
